@@ -4,16 +4,19 @@ import Lc3V.Driver.Offset
 import Lc3V.Driver.Word
 import Lc3V.Driver.Instr
 import Lc3V.Driver.Sim
+import Lc3V.Driver.Timer
 open Lc3V Lc3V.Driver
 
 structure DState where
   sim : Option SimCtx := none
+  tim : Option Timer := none
 
 def step (st : DState) (line : String) : DState × String :=
   let l := line.trimAscii.toString
   match l.splitOn " " with
   | "case" :: _ => (st, l)
   | "sim" :: args => let (s', out) := cmdSim st.sim args; ({ st with sim := s' }, out)
+  | "tim" :: args => let (t', out) := cmdTim st.tim args; ({ st with tim := t' }, out)
   | "off" :: args  => (st, cmdOff false args)
   | "offt" :: args => (st, cmdOff true args)
   | "wop" :: args => (st, cmdWop args)
